@@ -55,7 +55,7 @@ MODES = {
     "C04": Mode("C04", raises=True, horizon=3, limits=(None, 2.0, 2.5)),
     "C05": Mode("C05", raises=True, enterdone=True, always=True, stale_done=True, limits=(None, 2.0, 2.5, 0.3, 1.0, 3.0)),
     "C06": Mode("C06", tocks=True, rets=True, ext=("fresh", "present", "dup", "done"),
-                rem=("self", "prev", "next", "dupnext", "done", "absent"), always=True, kinds=(0, 2),
+                rem=("self", "prev", "next", "dupnext", "done", "absent"), always=True, kinds=(0, 2, 4),
                 limits=(None, 3.0, 2.0)),
     "C30": Mode("C30", raises=True, enterdone=True, limits=(None, 2.0, 2.5)),
 }
@@ -103,7 +103,7 @@ class World:
             return a
         k = phase
         last = k >= leaf.horizon - 1
-        a = [("ret", True)] if last else [("y", 0.0)]
+        a = [("ret", True)] if last else [("y", getattr(leaf, "basetock", 0.0))]
         if m.tocks and not last:
             for t in tocks(T):
                 if t is None and kind == 0:
@@ -184,6 +184,7 @@ class World:
         else:
             raise AssertionError(what)
         arg = [getattr(x, "doer", x) for x in arg]
+        arg = [fresh_ref(x) if name_of(x) in [name_of(d) for d in owner.doers] else x for x in arg]
         rec = dict(op="extend", by=leaf.name, owner=pn, what=what, args=[name_of(x) for x in arg],
                    before=[name_of(x) for x in owner.doers], t0=len(self.trace), cycle=self.cycle)
         self.calls.append(rec)
@@ -229,7 +230,7 @@ class World:
                 pn = gp
         else:
             raise AssertionError(what)
-        arg = [self.nodes[n].doer for n in names]
+        arg = [fresh_ref(self.nodes[n].doer) for n in names]
         rec = dict(op="remove", by=leaf.name, owner=pn, what=what, args=names,
                    before=[name_of(x) for x in owner.doers], t0=len(self.trace), cycle=self.cycle)
         self.calls.append(rec)
@@ -242,6 +243,15 @@ class World:
             raise
         rec["t1"] = len(self.trace)
         rec["after"] = [name_of(x) for x in owner.doers]
+
+
+def fresh_ref(doer):
+    """a bound-method doer as user code gets it from a new attribute access: equal to, but not the
+    same object as, the one the scheduler holds"""
+    import types
+    if isinstance(doer, types.MethodType):
+        return types.MethodType(doer.__func__, doer.__self__)
+    return doer
 
 
 def name_of(doer):
@@ -558,6 +568,12 @@ def run(job, ch, mode=None, table=None, cfg=None, kinds=None, runner=None):
         w.kindsel[name] = k
         return k
     doers = build(w, shape, ksel)
+    if w.mode.tocks and w.table is None:
+        # per-leaf default yield: one deviation changes what the leaf yields at *every* step
+        for n in list(w.order):
+            node = w.nodes.get(n)
+            if node is not None and w.kind.get(n) != "D":
+                node.basetock = ch.pick([0.0, 0.5 * T, 0.1, 2 * T], "basetock:" + n)
     d = LoggedDoist(w, tock=T, real=False, limit=lim, doers=doers, tyme=start)
     w.doist = d
     w.result = None
